@@ -140,9 +140,9 @@ func verifC42NewConn(id, vers uint16, isClient bool, fc *verifC42Conn) *Conn {
 	return c
 }
 
-// VerifC42Protect runs the real Conn.Write for every element of writes (and Conn.Close when closeNotify)
-// on a client Conn and returns the produced byte stream.
-func VerifC42Protect(id, vers uint16, writes [][]byte, closeNotify bool) ([]byte, uint64) {
+// VerifC42Protect runs the real Conn.Write for every element of writes, then sends the alert payload fin
+// (Conn.Close for close_notify) on a client Conn and returns the produced byte stream.
+func VerifC42Protect(id, vers uint16, writes [][]byte, fin []byte) ([]byte, uint64) {
 	fc := &verifC42Conn{}
 	c := verifC42NewConn(id, vers, true, fc)
 	for _, w := range writes {
@@ -150,8 +150,13 @@ func VerifC42Protect(id, vers uint16, writes [][]byte, closeNotify bool) ([]byte
 			panic(err)
 		}
 	}
-	if closeNotify {
+	// final alert record: close_notify through the real Conn.Close, any other payload through writeRecord
+	if len(fin) == 2 && fin[0] == alertLevelWarning && alert(fin[1]) == alertCloseNotify {
 		c.Close()
+	} else if len(fin) > 0 {
+		c.out.Lock()
+		c.writeRecord(recordTypeAlert, fin)
+		c.out.Unlock()
 	}
 	return fc.out, verifC42Seq(&c.out)
 }
@@ -213,8 +218,8 @@ func verifC42WritePad(c *Conn, typ recordType, data []byte, style, padx int) {
 }
 
 // VerifC42ProtectPeer is VerifC42Protect for a peer with CBC padding style 1..3 (record boundaries as
-// Conn.Write), followed by a close_notify alert record when closeNotify.
-func VerifC42ProtectPeer(id, vers uint16, writes [][]byte, closeNotify bool, style, padx int) []byte {
+// Conn.Write), followed by an alert record with payload fin when it is not empty.
+func VerifC42ProtectPeer(id, vers uint16, writes [][]byte, fin []byte, style, padx int) []byte {
 	fc := &verifC42Conn{}
 	c := verifC42NewConn(id, vers, true, fc)
 	for _, w := range writes {
@@ -232,8 +237,8 @@ func VerifC42ProtectPeer(id, vers uint16, writes [][]byte, closeNotify bool, sty
 			w = w[k:]
 		}
 	}
-	if closeNotify {
-		verifC42WritePad(c, recordTypeAlert, []byte{alertLevelWarning, byte(alertCloseNotify)}, style, padx)
+	if len(fin) > 0 {
+		verifC42WritePad(c, recordTypeAlert, fin, style, padx)
 	}
 	return fc.out
 }
